@@ -43,9 +43,10 @@ def gen_schema(rng, force_kind=None):
                  'a': {'ent': ea, 'coll': False, 'req': rng.random() < 0.4, 'opt_casc': None},
                  'b': {'ent': eb, 'coll': True, 'req': False, 'opt_casc': rng.choice([None, None, None, True, False])},
                  'ckey': rng.random() < 0.3}      # composite_key(reference, tag) on the entity of the reference
-            if rng.random() < 0.25: r['a']['lazy'] = True
+            lazy_ref = rng.random() < 0.25
             if r['a']['req'] and ea not in pk_ents and rng.random() < 0.4:
                 r['pk'] = True; r['ckey'] = False; pk_ents.add(ea)     # PrimaryKey(reference, tag): the reference is part of the primary key
+            if lazy_ref and not r.get('pk'): r['a']['lazy'] = True       # (a primary-key attribute cannot be lazy)
             if rng.random() < 0.5: r['a'], r['b'] = r['b'], r['a']     # collection side may come first in declaration order
         elif kind == 'm2m':
             r = {'kind': kind, 'sym': False,
@@ -239,6 +240,10 @@ def dangling_key(w, op, err, d):
     p, key, q = d
     if op['k'] in ('setColl', 'setMany') and err is None and p == op.get('o') and w.side(key)['coll'] and w.side(key)['casc']:
         return 'dangling:assign-collection-cascade-kills-kept-item'
+    if op['k'] == 'setMany' and err is None and p == op.get('o') and w.side(key)['coll'] and any(q in items for _, items in op['colls']) \
+            and any(v is not None for _, v in op.get('refs_eff', op['refs'])):
+        # Entity.set(ref=z, coll=[.., y]) whose REFERENCE keyword cascade-deletes y (y was the previous partner): the collection keyword still links y
+        return 'dangling:entity-set-collection-keyword-links-object-deleted-by-reference-keyword'
     if op['k'] == 'setMany' and err is None and p == op.get('o') and any(v == q for _, v in op['refs']):
         return 'dangling:entity-set-links-object-deleted-by-same-call'   # Entity.set writes its reference keywords after the cascade of its collection keywords
     if op['k'] in ('setColl', 'setMany', 'setRef') and err is None and q == op.get('o'):
@@ -579,13 +584,14 @@ def reload_phase(ctx, rng, w, ops, real, pks):
         exp_live = [(i, x) for i, x in enumerate(norm_dump(final)) if x['alive']]
         got_n = None if got is None else norm_dump([g if g is not None else {'ent': 0, 'alive': False, 'refs': [], 'colls': []} for g in got])
         bad = None
-        if got_n is None: bad = ('read-raises', getattr(w, 'read_error', None), None)
+        if got_n is None: bad = ('read-raises', 'exception raised by Pony while reading the committed data back: %s' % getattr(w, 'read_error', None), None)
         else:
             for i, x in exp_live:
                 if got_n[i] != x:
                     bad = (i, got_n[i], x); break
         if bad is not None:
             key = 'committed-links-differ'
+            if bad[0] == 'read-raises': key += ':read-raises:' + str(getattr(w, 'read_error', '')).split(':')[0]
             if bad[0] != 'read-raises':
                 i, g, x = bad
                 for (r, sd, l), (_, _, l2) in zip(x['colls'], g['colls']):
